@@ -94,3 +94,27 @@ Proof. vm_compute. eexists. reflexivity. Qed.
 Example nurikabe_model_prim_empty_board :
   exists st, solve_nurikabe_model_prim [[0; 2]; []]%Z = Ok st.
 Proof. vm_compute. eexists. reflexivity. Qed.
+
+(* the hypothesis of nurikabe_exact_prim holds exactly for the problems with a full clue list - boards without cells
+   included (otherwise the Python raises IndexError for a missing / short row) *)
+Theorem nurikabe_model_prim_defined h w grid :
+  (exists st, solve_nurikabe_model_prim [[Z.of_nat h; Z.of_nat w]; grid] = Ok st) <-> (h * w <= length grid).
+Proof.
+  unfold solve_nurikabe_model_prim. destruct (dims2c h w [grid]) as [-> ->].
+  change (sec [[Z.of_nat h; Z.of_nat w]; grid] 1) with grid.
+  destruct (Nat.ltb_spec (length grid) (h * w)) as [Hl|Hl]; [split; [intros [st Hst]; discriminate|lia]|].
+  set (cl := nk_clue_cells h w grid).
+  unfold int_array. destruct (Z.ltb_spec (Z.of_nat (length cl)) 0); [lia|].
+  rewrite DivisionEval.int_vars_spec. rewrite nk_roots_args, division_grid_roots.
+  set (st0 := add_decls empty_state (repeat (DInt 0 (Z.of_nat (length cl))) (h * w))).
+  set (data := map (fun i => IVar (next_id empty_state + i) 0 (Z.of_nat (length cl))) (seq 0 (h * w))).
+  split; [intros _; exact Hl|]. intros _.
+  destruct (post_division_prim_defined st0 (SArr data) (S (length cl)) (grid_graph h w)
+              (map (grid_root_vertex w) (GNone :: map (fun c => GCell (Z.of_nat (fst c)) (Z.of_nat (snd c))) cl)) true)
+    as [st1 Hst1].
+  + simpl. unfold data. rewrite map_length, seq_length. reflexivity.
+  + cbn [map]. constructor; [exact I|]. rewrite map_map. rewrite Forall_map. apply Forall_forall.
+    intros c Hc. destruct (cl_in h w grid c Hc) as [Hy Hx]. simpl.
+    pose proof (DivisionMain.grid_cell_lt h w (fst c) (snd c) Hy Hx). lia.
+  + rewrite Hst1. eexists; reflexivity.
+Qed.
